@@ -1,5 +1,6 @@
 import Dtr.Props.C12
 import Dtr.Proofs.Expand
+import Dtr.Proofs.LexLines
 /-!
 # C19 — each row reports the source line it came from
 
@@ -123,5 +124,66 @@ theorem C19_yield_keeps_line (data : List DataEntry) (line : Nat) (rest : List S
   · cases h
 
 theorem C19_data_row_line (r : EvRow) (vals : List OutVal) : (intoDataRow r vals).line = r.line := rfl
+
+theorem absTok_eol (t : Tok) : (absTok t = .sym .Eol) ↔ t.kind = .Eol := by
+  unfold absTok
+  cases hk : t.kind <;> simp
+
+theorem countEol_map_absTok : ∀ (l : List Tok), countEol (l.map absTok) = sumEol (l.map (fun t => (t.kind, 0)))
+  | [] => rfl
+  | t :: ts => by
+    simp only [List.map_cons, countEol, sumEol, countEol_map_absTok ts, kEol]
+    by_cases h : t.kind = .Eol
+    · simp [h, (absTok_eol t).2 h]
+    · have : absTok t ≠ .sym .Eol := fun e => h ((absTok_eol t).1 e)
+      simp [h, this]
+
+theorem sumEol_kinds : ∀ (a b : List (Kind × Nat)), a.map (·.1) = b.map (·.1) → sumEol a = sumEol b
+  | [], [], _ => rfl
+  | [], _ :: _, h => by simp at h
+  | _ :: _, [], h => by simp at h
+  | x :: xs, y :: ys, h => by
+    simp only [List.map_cons, List.cons.injEq] at h
+    simp only [sumEol, h.1, sumEol_kinds xs ys h.2]
+
+/-- **One `Eol` token per newline character** (the lexer's half of the claim): the number of `Eol`
+tokens in front of token number `p` of a body text is the number of newline characters in front of
+that token's first character (`c` = its character offset in the body text). -/
+theorem C19_tokens_count_newlines (off : Nat) (rest : Str) (p : Nat) (k : Kind) (c : Nat)
+    (h : (lexKP (rest.length + 1) 0 rest)[p]? = some (k, c)) :
+    countEol (((lexBodyAll off rest).map absTok).take p) = nlCount (rest.take c) := by
+  have hl := lexKP_lines (rest.length + 1) 0 rest p k c h
+  rw [← List.map_take, countEol_map_absTok]
+  have hk : (((lexBodyAll off rest).take p).map (fun t => ((t.kind, 0) : Kind × Nat))).map (·.1) =
+      ((lexKP (rest.length + 1) 0 rest).take p).map (·.1) := by
+    have h1 : (lexBodyAll off rest).map (fun t => t.kind) = (lexKP (rest.length + 1) 0 rest).map (·.1) := by
+      rw [lexKP_kinds]
+      have := lexBody_kt (rest.length + 1) off rest
+      simp only [lexBodyAll]
+      rw [← this]
+      simp [List.map_map, Function.comp_def]
+    simp only [List.map_map, Function.comp_def, List.map_take]
+    rw [h1]
+  rw [sumEol_kinds _ _ hk, hl.2]
+  simp
+
+/-- **The line of a row is one plus the number of newline characters in front of it**: with the
+header accepted (`l` = line counter after it), a row whose first token is token number `p` of the
+body — at character offset `c` of the body text — is given the line `l + #Eol before p`
+(`parseRow_line`, `C19_row_line_tokens`), and that number is `1 +` the number of `\n` characters of
+the source in front of the row's first character. -/
+theorem C19_source_line (src : Str) (names : List (String × Nat × Nat)) (l o : Nat) (rest : Str)
+    (hh : parseHeaderAll src = .ok names l o rest) (p : Nat) (k : Kind) (c : Nat)
+    (h : (lexKP (rest.length + 1) 0 rest)[p]? = some (k, c)) :
+    l + countEol (((lexBodyAll o rest).map absTok).take p) =
+      1 + nlCount (src.take (src.length - rest.length + c)) := by
+  obtain ⟨pre, hsrc, hl⟩ := C19_header_line src names l o rest hh
+  rw [C19_tokens_count_newlines o rest p k c h, hl, hsrc]
+  have e : (pre ++ '\n' :: rest).length - rest.length + c = (pre ++ ['\n']).length + c := by simp; omega
+  rw [e]
+  have e2 : pre ++ '\n' :: rest = (pre ++ ['\n']) ++ rest := by simp
+  rw [e2, List.take_length_add_append, nlCount_append, nlCount_append]
+  simp [nlCount, countNl]
+  omega
 
 end Dtr
